@@ -385,7 +385,7 @@ def dispatch(rec, case):
 
 def plan(tier, seed):
     n = 16
-    per = 2500 if tier == 'thorough' else 600
+    per = 15000 if tier == 'thorough' else 600
     shards = [{'seed': seed, 'shard': s, 'n': per} for s in range(n)]
     late = []
     for srv in 'TA':
